@@ -138,6 +138,14 @@ Section Push.
   Definition stateless_op (k : opk) : bool :=
     match k with OFilter _ | OProject _ => true | _ => false end.
 
+  (** chains in which no operator before the last one is a LIMIT *)
+  Definition is_limit (k : opk) : bool := match k with OLimit _ => true | _ => false end.
+  Fixpoint no_inner_limit (ks : list opk) : bool :=
+    match ks with
+    | [] | [_] => true
+    | k :: rest => negb (is_limit k) && no_inner_limit rest
+    end.
+
   (** *** one operator driven by Pipeline::execute: push every chunk until a push answers false,
       then finalize *)
   Fixpoint drive (k : opk) (s : opst) (cs : list (list R)) : opst * list (list R) :=
@@ -197,6 +205,27 @@ Section Push.
   Definition init_chain (ks : list opk) : list opst := map (fun _ => st0) ks.
   Definition run_chain (ks : list opk) (cs : list (list R)) : list (list R) :=
     let '(ss, out) := drive_chain ks (init_chain ks) cs in out ++ finalize_all ks ss.
+
+  (** *** LimitingSink (execution/sink.rs): counts at most [lim] rows but keeps the whole chunk that
+      crosses the limit ("For now, we'll take the whole chunk but track correctly") *)
+  Definition lsink_consume (lim collected : nat) (c : list R) : nat * list (list R) * bool :=
+    if lim <=? collected then (collected, [], false)
+    else let need := lim - collected in
+         if length c <=? need then (collected + length c, keep c, collected + length c <? lim)
+         else (collected + need, keep c, false).
+  (** every chunk is offered (the caller may ignore the answer); returns the kept chunks and the answers *)
+  Fixpoint lsink_run (lim collected : nat) (cs : list (list R)) : list (list R) * list bool :=
+    match cs with
+    | [] => ([], [])
+    | c :: r => let '(col', out, b) := lsink_consume lim collected c in
+                let '(o2, b2) := lsink_run lim col' r in (out ++ o2, b :: b2)
+    end.
+  (** finding class C17-K10: a chunk crosses the limit *)
+  Fixpoint k_lsink_overshoot (lim collected : nat) (cs : list (list R)) : bool :=
+    match cs with
+    | [] => false
+    | c :: r => ((collected <? lim) && (lim - collected <? length c)) || k_lsink_overshoot lim (Nat.min lim (collected + length c)) r
+    end.
 
   (** *** Pipeline::compute_chunk_size and the VectorSource *)
   Definition DEFAULT_CHUNK_SIZE := 2048.
